@@ -65,7 +65,7 @@ class P(Property):
             'transport accepting 1,2,3 or all bytes per grant. wt.recv: peer-opened bidi (0x41) and uni (0x54) streams, header in every '
             'varint form, bytes header++payload(0..6) cut at every offset / one chunk / byte by byte (thorough: every composition of '
             'header<=9 + payload<=4), polls between arrivals at none/all/seeded positions, FIN / RESET / still open, poll_data and AsyncRead '
-            'with 1..8 byte buffers, uni stream before or after the CONNECT, extension on/off, truncated headers. '
+            'with 1..8 byte buffers, tokio AsyncRead with 1..8 byte ReadBufs, bidi streams also through split() (receive half), every mode crossed with payload-in-the-header-chunk / FIN / RESET / open / polls, headers naming another session id, two uni streams pending at once (wt.recv2), uni stream before or after the CONNECT, extension on/off, truncated headers. '
             'non-trivial = distinct cases in which a session was established and (wt.recv) at least the first header byte arrived')
 
     trusted_extra = [
@@ -82,8 +82,9 @@ class P(Property):
         out = []
         sids = SIDS_SMALL + SIDS_BIG if tier != 'quick' else [0, 4, 8, 60, 64, 4 * 2 ** 12, 4 * 2 ** 14, 4 * 2 ** 30, 2 ** 62 - 4]
         endings = ['F', 'R7', '']
-        modes = ['d', 'r1', 'r2', 'r3', 'r8']
+        base_modes = ['d', 'r1', 'r2', 'r3', 'r8', 't1', 't2', 't3', 't8']
         for kind, sig in (('uni', 0x54), ('bi', 0x41)):
+            modes = base_modes + (['sd', 'sr2', 'st8', 'st1'] if kind == 'bi' else [])
             for s in sids:
                 forms = [(2, shortest(s))]
                 if tier != 'quick' or s in (8, 4 * 2 ** 14):
@@ -137,7 +138,92 @@ class P(Property):
                         for lens in compositions(len(data)):
                             chunks = cut(data, lens)
                             polls = {i for i in range(-1, len(chunks)) if rng.random() < 0.6}
-                            out.append('wt.recv %s %d 0 1 0 %s %s' % (kind, s, rng.choice(modes), hist(chunks, rng.choice(endings), polls)))
+                            out.append('wt.recv %s %d 0 1 0 %s %s' % (kind, s, rng.choice(base_modes + (['sd', 'sr2', 'st8'] if kind == 'bi' else [])), hist(chunks, rng.choice(endings), polls)))
+        out += self.cross_cases(tier, rng)
+        out += self.other_session_cases(rng)
+        out += self.two_stream_cases(tier, rng)
+        return out
+
+    def cross_cases(self, tier, rng):
+        """deterministic crossing: every read mode x payload sharing a chunk with the header or not x FIN / RESET / open x polls"""
+        out = []
+        base_modes = ['d', 'r1', 'r2', 'r3', 'r8', 't1', 't2', 't3', 't8']
+        for kind, sig in (('uni', 0x54), ('bi', 0x41)):
+            modes = base_modes + (['s' + m for m in base_modes] if kind == 'bi' else [])
+            for s in (8, 4 * 2 ** 14):
+                hdr = vi(sig) + vi(s)
+                for plen in (0, 1, 3, 5):
+                    payload = bytes((0xa0 + i) & 0xff for i in range(plen))
+                    data = hdr + payload
+                    n, hl = len(data), len(hdr)
+                    chunkings = [[n], [1] * n]
+                    if plen:
+                        chunkings += [[hl, plen], [hl + 1, plen - 1] if plen > 1 else [hl - 1, 2], [hl - 1, plen + 1]]
+                    for lens in chunkings:
+                        lens = [l for l in lens if l > 0]
+                        chunks = cut(data, lens)
+                        for mode in modes:
+                            for ending in ('F', 'R7', ''):
+                                for polls in (set(), set(range(-1, len(chunks)))):
+                                    out.append('wt.recv %s %d 0 1 0 %s %s' % (kind, s, mode, hist(chunks, ending, polls)))
+        return out
+
+    def other_session_cases(self, rng):
+        """the header names a session id that is not the CONNECT stream of this session: the id from the header is what must be attached"""
+        out = []
+        for kind, sig in (('uni', 0x54), ('bi', 0x41)):
+            for s, others in ((8, (0, 4, 12, 5, 4 * 2 ** 14, 2 ** 62 - 1)), (0, (4, 63, 64)), (4 * 2 ** 14, (8, 4 * 2 ** 14 + 4))):
+                for x in others:
+                    data = vi(sig) + vi(x) + b'\xaa\xbb'
+                    for lens in ([len(data)], [1] * len(data)):
+                        for mode in ('d', 't2') + (('sd',) if kind == 'bi' else ()):
+                            out.append('wt.recv %s %d 0 1 0 %s %s' % (kind, s, mode, hist(cut(data, lens), 'F', set(range(len(lens))))))
+        return out
+
+    def two_stream_cases(self, tier, rng):
+        """two peer uni streams open at the same time (the pending_recv_streams loop): complete / incomplete / unknown headers,
+        arrivals of the two streams interleaved, polls in between"""
+        out = []
+        shapes = [
+            ('full', vi(0x54) + vi(8) + b'\xa1\xa2\xa3', 'F'),
+            ('full-other', vi(0x54) + vi(12) + b'\xb1', 'R9'),
+            ('open', vi(0x54) + vi(8) + b'\xc1\xc2', ''),
+            ('hdr-only', vi(0x54) + vi(8), ''),
+            ('trunc', vi(0x54)[:1], ''),
+            ('trunc-sess', vi(0x54) + vi(4 * 2 ** 14)[:2], ''),
+            ('trunc-fin', vi(0x54), 'F'),
+            ('unknown', vi(0x21) + b'\x01', 'F'),
+            ('empty', b'', ''),
+        ]
+        modes = ['d', 'r2', 't2', 't8']
+        reps = 1 if tier == 'quick' else 6
+        for (na, da, ea) in shapes:
+            for (nb, db, eb) in shapes:
+                for rep in range(reps):
+                    for split in ('one', 'bytes', 'rand'):
+                        def pieces(d):
+                            if not d:
+                                return []
+                            if split == 'one':
+                                return [d]
+                            if split == 'bytes':
+                                return cut(d, [1] * len(d))
+                            lens, rest = [], len(d)
+                            while rest:
+                                k = rng.randint(1, rest)
+                                lens.append(k)
+                                rest -= k
+                            return cut(d, lens)
+                        qa = ['a:c' + c.hex() for c in pieces(da)] + (['a:' + ea] if ea else [])
+                        qb = ['b:c' + c.hex() for c in pieces(db)] + (['b:' + eb] if eb else [])
+                        its = []
+                        while qa or qb:
+                            src = qa if (qa and (not qb or rng.random() < 0.5)) else qb
+                            its.append(src.pop(0))
+                            if rng.random() < 0.4:
+                                its.append('p')
+                        en = 0 if rng.random() < 0.15 else 1
+                        out.append('wt.recv2 8 %d %s %s' % (en, rng.choice(modes), ','.join(its) or '-'))
         return out
 
     def cases(self, tier, rng):
@@ -188,6 +274,8 @@ class P(Property):
             return None
         w = case.split()
         if w[0] == 'wt.recv' and 'c' not in [t[0] for t in w[7].split(',') if t]:
+            return None
+        if w[0] == 'wt.recv2' and ':c' not in w[4]:
             return None
         return case
 
